@@ -343,33 +343,32 @@ std::string relation_class(const Value& a, const Value& b) {
   return refv::intersect(a, b).items.empty() ? "disjoint" : "overlapping";
 }
 
-// strict-total-order laws over a whole universe (n <= 512): matrix of operator< and ==, then all triples
-void check_order(Ctx& c, const Universe& u) {
-  Checker k{ c };
+// strict-total-order laws over a whole universe (n <= 512): matrix of operator< (built once per worker), one case per row a:
+// irreflexive, asymmetric + total (exactly one of a<b, b<a, a==b), == consistent with canonical forms, and ALL triples (a, b, c)
+struct OrderMatrix { const Universe* u{ nullptr }; std::vector<std::vector<char>> lt, eq; bool sameAsRef{ true }; };
+void build_order_matrix(OrderMatrix& m, const Universe& u) {
+  if (m.u == &u) return;
+  m = OrderMatrix{}; m.u = &u;
   const size_t n = u.n;
   std::vector<StructuredData> sd; for (size_t i = 0; i < n; ++i) sd.push_back(refv::to_sd(u.value(i)));
-  std::vector<std::vector<char>> lt(n, std::vector<char>(n, 0));
-  for (size_t i = 0; i < n; ++i) for (size_t j = 0; j < n; ++j) {
-    lt[i][j] = sd[i] < sd[j] ? 1 : 0;
-    const bool e = sd[i] == sd[j];
-    if (e != (i == j)) OK(k, false, "eq-vs-canonical-cc", "== disagrees with canonical forms", bstr(e), bstr(i == j));
-  }
+  m.lt.assign(n, std::vector<char>(n, 0)); m.eq = m.lt;
+  for (size_t i = 0; i < n; ++i) for (size_t j = 0; j < n; ++j) { m.lt[i][j] = sd[i] < sd[j] ? 1 : 0; m.eq[i][j] = sd[i] == sd[j] ? 1 : 0; if ((m.lt[i][j] != 0) != (i < j)) m.sameAsRef = false; }
+}
+void check_order_row(Ctx& c, const Universe& u, const OrderMatrix& m, size_t i) {
+  Checker k{ c };
+  const size_t n = u.n;
   uint64_t bad = 0, triples = 0;
-  for (size_t i = 0; i < n; ++i) {
-    if (lt[i][i]) OK(k, false, "lt-irreflexive", "a < a holds for " + refv::str(u.value(i)));
-    for (size_t j = 0; j < n; ++j) {
-      if (i != j && lt[i][j] == lt[j][i]) OK(k, false, lt[i][j] ? "lt-asymmetric" : "lt-total-consistent", "a=" + refv::str(u.value(i)) + " b=" + refv::str(u.value(j)));
-      if (!lt[i][j]) continue;
-      const char* rj = lt[j].data(); const char* ri = lt[i].data();
-      for (size_t l = 0; l < n; ++l) if (rj[l] && !ri[l]) { if (bad++ < 3) OK(k, false, "lt-transitive", "a<b, b<c but not a<c: a=" + refv::str(u.value(i)) + " b=" + refv::str(u.value(j)) + " c=" + refv::str(u.value(l))); }
-      triples += n;
-    }
+  OK(k, !m.lt[i][i], "lt-irreflexive", "a < a holds");
+  for (size_t j = 0; j < n; ++j) {
+    OK(k, (m.eq[i][j] != 0) == (i == j), "eq-vs-canonical-cc", "== disagrees with canonical forms, b=" + refv::str(u.value(j)), bstr(m.eq[i][j] != 0), bstr(i == j));
+    if (i != j) OK(k, m.lt[i][j] != m.lt[j][i], m.lt[i][j] ? "lt-asymmetric" : "lt-total-consistent", "b=" + refv::str(u.value(j)));
+    if (!m.lt[i][j]) continue;
+    const char* rj = m.lt[j].data(); const char* ri = m.lt[i].data();
+    for (size_t l = 0; l < n; ++l) if (rj[l] && !ri[l]) { if (bad++ < 3) OK(k, false, "lt-transitive", "a<b, b<c but not a<c: b=" + refv::str(u.value(j)) + " c=" + refv::str(u.value(l))); }
+    triples += n;
   }
-  k.n += triples + n * n * 2;
+  k.n += triples;
   c.rep.count("order_triples", triples);
-  // informative only: does the library order coincide with the reference order (size, then lexicographic)?
-  bool sameAsRef = true; for (size_t i = 0; i < n && sameAsRef; ++i) for (size_t j = 0; j < n; ++j) if ((lt[i][j] != 0) != (i < j)) { sameAsRef = false; break; }
-  c.rep.outcome(sameAsRef ? "order:same-as-reference" : "order:other-total-order");
 }
 
 struct AlgebraCfg {
@@ -386,12 +385,21 @@ std::vector<size_t> margin_set(const Universe& u, int m) {
 }
 
 void run_algebra(Ctx& c, const std::vector<Universe>& us, const AlgebraCfg& cfg) {
-  UCache uc;
+  UCache uc; OrderMatrix om;
+  c.case_timeout_s = std::max(c.case_timeout_s, 90);   // the per-worker tables of a universe are built inside the first case that needs them
   for (const auto& u : us) {
     if (c.stop()) return;
-    // (1) order laws, one case per small universe
+    // (1) order laws over the whole universe, one case per row
     if (!u.big() && u.n <= 512) {
-      if (c.take()) { c.begin("order-laws U=" + u.name + " n=" + std::to_string(u.n)); check_order(c, u); c.rep.count("evaluations"); c.done(); }
+      for (size_t i = 0; i < u.n; ++i) {
+        if (!c.take()) continue;
+        c.begin("order-laws U=" + u.name + " n=" + std::to_string(u.n) + " a=" + refv::str(u.value(i)) + " against all b, c");
+        build_order_matrix(om, u);
+        check_order_row(c, u, om, i);
+        c.rep.count("evaluations");
+        if (i == 0) c.rep.outcome(om.sameAsRef ? "order:same-as-reference" : "order:other-total-order");   // informative only
+        c.done();
+      }
     }
     // (2) unary battery
     {
@@ -411,7 +419,7 @@ void run_algebra(Ctx& c, const std::vector<Universe>& us, const AlgebraCfg& cfg)
     }
     // (3) binary battery
     if (!u.big()) {
-      const size_t blk = 128;
+      const size_t blk = 16;
       for (size_t i = 0; i < u.n; ++i) for (size_t j0 = 0; j0 < u.n; j0 += blk) {
         if (!c.take()) continue;
         const Value a = u.value(i);
@@ -425,7 +433,7 @@ void run_algebra(Ctx& c, const std::vector<Universe>& us, const AlgebraCfg& cfg)
           if (i != j && (!a.isSet() || (!a.items.empty() && !b.items.empty()))) c.rep.count("nontrivial");
           c.rep.outcome("pair:" + std::string(a.isSet() ? "set:" : a.isTuple() ? "tuple:" : "elem:") + relation_class(a, b));
         }
-        if (c.idx % 1201 == 1) c.rep.sample(d);
+        if (c.idx % 9601 == 1) c.rep.sample(d);
         c.done(); c.rep.count("us_pairs", static_cast<uint64_t>((now_s() - tcase) * 1e6));
       }
     } else {
@@ -433,15 +441,16 @@ void run_algebra(Ctx& c, const std::vector<Universe>& us, const AlgebraCfg& cfg)
       for (const auto& [mA, mJ] : cfg.bigPairs) {
         const auto Aset = margin_set(u, mA), J = margin_set(u, mJ);
         std::vector<Reps> jreps;
-        for (size_t i : Aset) {
+        const size_t jb = 16;
+        for (size_t i : Aset) for (size_t q0 = 0; q0 < J.size(); q0 += jb) {
           if (!c.take()) continue;
           const Value a = u.value(i);
-          const std::string d = "pairs U=" + u.name + " i=" + std::to_string(i) + " a=" + refv::str(a) + " vs the " + std::to_string(J.size()) + " values with <=" + std::to_string(mJ) + " or >=max-" + std::to_string(mJ) + " members";
+          const std::string d = "pairs U=" + u.name + " i=" + std::to_string(i) + " a=" + refv::str(a) + " vs values " + std::to_string(q0) + ".." + std::to_string(std::min(J.size(), q0 + jb) - 1) + " of the " + std::to_string(J.size()) + " with <=" + std::to_string(mJ) + " or >=max-" + std::to_string(mJ) + " members";
           c.begin(d); const double tcase = now_s();
           uc.elems(u);
           if (jreps.empty()) for (size_t j : J) jreps.push_back(reps_of(u.value(j)));
           const Reps ra = reps_of(a);
-          for (size_t q = 0; q < J.size(); ++q) {
+          for (size_t q = q0; q < std::min(J.size(), q0 + jb); ++q) {
             const Value b = u.value(J[q]);
             check_pair(c, u, i, J[q], a, b, ra, jreps[q], 0, uc);
             c.rep.count("evaluations");
